@@ -274,6 +274,15 @@ def check_container(ctx, cs):
                     ctx.violate(site + "." + view, tg + ["view=" + view], small, {"view": view, "n_container": len(a), "n_fresh": len(b),
                                                                                    "container_reports": str(a)[:160], "fresh_reports": str(b)[:160]})
                     break
+            if kind == "surface" and len(cs["ver"]) >= 2:
+                # the aggregated mesh read twice, with an element-preserving call in between: ids stay 0..N-1, faces address their vertices
+                ids1 = [v.id for v in cont.vertices]
+                cont.sample_size = list(cs["samp"][:2])
+                ids2 = [v.id for v in cont.vertices]
+                fok = all(all(0 <= i < len(ids2) for i in f.vertex_ids) for f in cont.faces)
+                if ids1 != list(range(len(ids1))) or ids2 != list(range(len(ids2))) or not fok or [f.id for f in cont.faces] != list(range(len(cont.faces))):
+                    ctx.violate(site + ".vertices", tg + ["view=tess", "read_twice"], small, {"first_ids": ids1[:5], "second_ids": ids2[:5]})
+                    pass
         except Exception as e:
             ctx.violate(site, tg + ["raises"], small, {"exception": repr(e)[:300]})
     return True
